@@ -803,6 +803,46 @@ def to_coq(case, obs):
 
 
 # ---------------------------------------------------------------------------
+# translator (T): a fixed grid of scenarios is run on the CURRENT source at build time; the recorded traces,
+# outcomes and directories become coq/Gen/C04_Gen.v, and Proofs/C04_GenCheck.v proves (vm_compute) that the
+# model's program produces exactly each recorded trace/outcome/directory (gen_trace = save cfg body) and that
+# each satisfies the Spec's trace predicates.  A source change that alters any of them breaks that proof
+# obligation before a single random case is generated.
+# ---------------------------------------------------------------------------
+def gen_grid():
+    bodies = [[["w", "hello"], ["w", " world"]], [["w", "ab"], ["f"], ["w", "tail\n"], ["r"]]]
+    for ow in (True, False):
+        for owp in (True, False):
+            for rm in (True, False):
+                for dest in (False, True):
+                    for bi, body in enumerate(bodies):
+                        init = {"other": ["bystander", 0o644]}
+                        if dest:
+                            init["dest"] = ["OLD", 0o640]
+                        if bi == 1:
+                            init["part"] = ["stale part", 0o600]
+                        cfg = {"overwrite": ow, "overwrite_part": owp, "rm_part_on_exc": rm,
+                               "file_perms": (0o600 if bi else None), "text_mode": bool(bi), "buffering": -1,
+                               "part_file": None, "api": "func", "path": "abs", "explicit": True, "abort_kind": "exc"}
+                        yield {"cfg": cfg, "umask": 0o022, "init": init, "body": body, "body_exc": False,
+                               "sched": [], "crash": [0, 3, 6, 9], "retry": False}
+
+
+def translators(repo):
+    terms = []
+    for case in gen_grid():
+        obs = run_impl(case)                      # any exception propagates: fail closed
+        terms.append(to_coq(case, obs))
+    if len(terms) != 32:
+        raise RuntimeError("grid changed size")
+    text = ("(* generated by harness/c04.py from the current source of boltons.fileutils: do not edit *)\n"
+            + IMPORTS + "\n"
+            + "".join("Definition g%d : c04_case := %s.\n" % (i, t) for i, t in enumerate(terms))
+            + "Definition gen_cases : list c04_case := [%s].\n" % "; ".join("g%d" % i for i in range(len(terms))))
+    return {"C04_Gen": text}
+
+
+# ---------------------------------------------------------------------------
 # generation
 # ---------------------------------------------------------------------------
 SMALL = ["a", "bc", "hello", "x\ny\n", "été", "—dash", "0123456789", "line\r\n", ""]
